@@ -24,7 +24,50 @@ def func(tag, cmd, quick, thorough, mismatch, checker, **kw):
     d.update(kw)
     return d
 
+SETTLE_ASSUME = ["x/bank: a send fails iff the sender's balance is insufficient and has no other effect; treasury accounts have no key",
+                 "baseapp: messages of a transaction run on a branch that is written only if all succeed",
+                 "ERC-721 ownerOf / SBT mint modelled as abstract ledgers; ERC-20 conversion payout path not exercised (no registered pair)"]
+
 PROPS = {
+    'C01': dict(
+        theorems=['C01_exactly_once', 'C01_resolved_after_recorded', 'C01_split_each', 'C01_split_total', 'C01_paid_is_split',
+                  'C01_treasury_debit_native', 'C01_treasury_untouched_mint'],
+        runs=[chain('settle', 'settlement', 40, 1200, 'check_C01'),
+              chain('imported', 'imported', 40, 1200, 'check_C01'),
+              chain('faults', 'faults', 24, 800, 'check_C01')],
+        fields=[3, 5, 15, 16, 20, 21],
+        rule=CHAIN_RULE, assumptions=SETTLE_ASSUME),
+    'C02': dict(
+        theorems=['C02_maturity_test', 'C02_not_early', 'C02_cancel_pending', 'C02_cancelled_never_paid',
+                  'C02_cancel_not_pending', 'C02_paid_not_pending'],
+        runs=[chain('periods', 'periods', 48, 1600, 'check_C02'),
+              chain('settle', 'settlement', 40, 1200, 'check_C02')],
+        fields=[2, 3, 4, 15, 16, 20, 21],
+        rule=CHAIN_RULE + "; the periods profile draws payout periods from {1..9, 2^62, 2^63-1, 2^63, 2^64-1-h, 2^64-h, 2^64-h+1, 2^64-1}",
+        assumptions=SETTLE_ASSUME),
+    'C09': dict(
+        theorems=['C09_only_admins', 'C09_cancel_exactly', 'C09_add_admin_exactly', 'C09_remove_admin_exactly',
+                  'C09_update_period_exactly', 'C09_admin_lists', 'C09_rejected_changes_nothing'],
+        runs=[chain('settle', 'settlement', 48, 1600, 'check_C09'),
+              chain('adv', 'adversarial', 32, 1000, 'check_C09')],
+        fields=[2, 3, 5, 15, 20],
+        rule=CHAIN_RULE + "; senders are current admins, removed admins, other tenants' admins and strangers",
+        assumptions=SETTLE_ASSUME),
+    'C11': dict(
+        theorems=['C11_prefix', 'C11_queue_order', 'C11_failure_defers', 'C11_block_completes', 'C11_recovers'],
+        runs=[chain('faults', 'faults', 48, 1600, 'check_C11'),
+              chain('imported', 'imported', 40, 1200, 'check_C11')],
+        fields=[3, 5, 16, 21],
+        rule=CHAIN_RULE + "; fault plans fail the k-th payout back-end call (bank send / SBT mint) of an end-block",
+        assumptions=SETTLE_ASSUME),
+    'C12': dict(
+        theorems=['C12_duplicate_rejected', 'C12_lookup_exact', 'C12_one_per_request', 'C12_invariant_reachable',
+                  'C12_ids_increase', 'C12_reqid_key_injective', 'C12_utxr_key_injective'],
+        runs=[chain('settle', 'settlement', 48, 1600, 'check_C12'),
+              chain('adv', 'adversarial', 32, 1000, 'check_C12')],
+        fields=[3, 4, 14, 15, 20],
+        rule=CHAIN_RULE + "; request ids include the empty string, prefixes of each other, NUL bytes and ids shared between tenants",
+        assumptions=SETTLE_ASSUME),
     'C15': dict(
         theorems=['C15_close_iff', 'C15_every_window_closed', 'C15_first_tally', 'C15_nobody_else',
                   'C15_effect', 'C15_miss_only', 'C15_old_gate_never_closes'],
@@ -41,10 +84,22 @@ PROOF_NOTE = ("Theorems are about the Gallina model; the model is tied to /repo 
               "(same histories on the real app and on the model, compared on this property's observables). Trusted: Coq kernel "
               "+ vm_compute, the Go harness and printer, the SDK/EVM parts listed in DESIGN.md section 9.")
 
+SETTLE_TECH = "Coq proof: invariant by induction over histories of the generalised settlement machine (arbitrary oracle fills and fault plans) + differential correspondence via vm_compute on ABCI histories"
+
 LEVELS = {
+    'C01': dict(text="Unbounded theorems over all histories of the settlement machine with arbitrary oracle input and fault plans: every record id is recorded once and resolved at most once, only after it was recorded; pending = recorded minus resolved; paid amounts are the floor split and sum to at most the amount; native treasuries are debited by exactly the paid total. Correspondence: ABCI histories (incl. genesis-imported multi-recipient records and back-end faults) compared with the model on records, index, balances and typed events; the implementation's own events and balances are checked against the property.",
+                note=PROOF_NOTE, technique=SETTLE_TECH),
+    'C02': dict(text="Unbounded theorems: the uint64 maturity test equals created+period <= height in Z for every period in [1,2^64); no GPaid before maturity in any history; cancel of a pending record succeeds and removes it, a cancelled id is never paid, a cancel for a request id that is not pending is rejected. Correspondence on ABCI histories with boundary periods and cancels racing the paying block.",
+                note=PROOF_NOTE, technique=SETTLE_TECH),
+    'C09': dict(text="Unbounded theorems: privileged messages succeed only for current admins, with exact acceptance conditions per kind; admin lists are duplicate-free and non-empty in every reachable state; a rejected transaction is a no-op on the settlement state. Correspondence on ABCI histories with admin churn and strangers / removed admins as senders.",
+                note=PROOF_NOTE, technique=SETTLE_TECH),
+    'C11': dict(text="Unbounded theorems for every fault plan: each end-block resolves a prefix of the tenant's queue in id order, the record it stops at is immature or its payout failed, the failed payout leaves the state untouched, the block completes, and the head record is paid in full once funds suffice and no fault is injected. Correspondence with fault-injecting bank/EVM keepers on the real app.",
+                note=PROOF_NOTE, technique=SETTLE_TECH),
+    'C12': dict(text="Unbounded theorems: index and record store are in bijection in every reachable state (lookup exact, one pending record per request id, duplicates rejected), ids per tenant strictly increase along any history, and the byte-level store keys are injective for arbitrary request-id strings. Correspondence on ABCI histories incl. by-request-id queries for every id ever used.",
+                note=PROOF_NOTE, technique=SETTLE_TECH),
     'C15': dict(text="Unbounded theorems on the oracle model (all vote periods, windows, heights, validator tables, miss maps): the close routine runs iff a window boundary lies since the previous tally; every window is closed at the first tally at/after its end; nobody is slashed/jailed otherwise; effect of a close; who is charged a miss. Correspondence: exported Go functions on boundary grids + full ABCI histories with misses and jailing.",
                 note=PROOF_NOTE, technique="Coq proof (lia/nia over Z with explicit uint64/int64 wrap) + differential correspondence via vm_compute"),
 }
 
 NOT_APPLICABLE = {p: "work in progress in this session: model exists, check not yet registered" for p in
-                  ['C01','C02','C03','C04','C05','C06','C07','C08','C09','C10','C11','C12','C13','C14','C16','C17','C18','C19','C20']}
+                  ['C03','C04','C05','C06','C07','C08','C10','C13','C14','C16','C17','C18','C19','C20']}
